@@ -99,7 +99,8 @@ func genConc(r *core.Rand, tier string) Plan {
 
 var (
 	urlSchemes  = []string{"simx", "simy", "ax25", "ax25+agwpe", "ax25+linux", "ardop", "telnet", "serial-tnc", "pactor", "vara", "a", "x-y.z+1"}
-	urlHosts    = []string{"", "", "axport", "0", "ax0", "localhost:8000", "127.0.0.1:8515", "server.winlink.org:8772", "[::1]:8000", "[fe80::1]", "Mixed.Case.Host", "tnc-1.local:1", "a", "wl2k.example.", "10.0.0.1"}
+	urlHosts    = []string{"", "", "axport", "0", "ax0", "localhost:8000", "127.0.0.1:8515", "server.winlink.org:8772", "[::1]:8000", "[fe80::1]", "Mixed.Case.Host", "tnc-1.local:1", "a", "wl2k.example.", "10.0.0.1",
+		"tnc.local:32767", "tnc.local:32768", "localhost:49152", "127.0.0.1:65535", "[::1]:65535", "h:0"}
 	hostParams  = []string{"/dev/ttyS0", "ax0", "/dev/serial/by-id/usb-FTDI_FT232R_USB_UART_A50285BI-if00-port0", "COM3", "192.168.1.2:8515", "a b", "x&y=z", "höst", "%2F", "host?#", "localhost:8000"}
 	callLetters = "ABCDEFGHIJKLMNOPQRSTUVWXYZabcdefghijklmnopqrstuvwxyz0123456789"
 	someTargets = []string{"LA5NTA", "la5nta", "LA1B-10", "wl2k", "N0CALL-15", "sm0xyz-5", "K7ABC", "W1AW"}
